@@ -252,7 +252,7 @@ pub struct Classified {
 }
 
 pub fn classify(src: &str, mode: Mode) -> Classified {
-    let t = translate_opts(src, "T", Opts { mode, build_despite_syntax_errors: true, render: true });
+    let t = translate_opts(src, "T", Opts { mode, build_despite_syntax_errors: true, render: true, lowercase: true });
     let detail = |why: &str| json!({"input": src, "mode": mode.name(), "why": why, "syntax_errors": t.syntax_errors, "diagnostics": t.diag_summary(), "panic": t.panic});
     let mk = |k: &str, why: String| Classified { failure: Some(Failure { key: format!("c07-{k}"), what: why.clone(), detail: detail(&why) }), recovery_seen: false, semantic_diag: false };
     if let Some(p) = &t.panic {
